@@ -98,7 +98,7 @@ def check_class(ctx, R, cls, rules=None):
     """run the hold rules on every method defined by `cls` (owner context)"""
     want = (lambda r: True) if rules is None else (lambda r: r in rules)
     mdf = md_containers(ctx, cls)
-    methods = [(n, f) for n, f in cls.methods.items() if n not in ('__init__', '__str__')]
+    methods = [(n, f) for n, f in ctx.entry_methods(cls) if n not in ('__init__', '__str__')]
     cname = cls.name
     for mname, fn in methods:
         if any(d for d in fn.node.decorator_list if getattr(d, 'id', None) == 'property'):
@@ -207,7 +207,8 @@ def check_class(ctx, R, cls, rules=None):
                         key = e.x.get('key')
                         prior_pop = any(x.kind == 'TK' and x.a == e.a and x.c in ('pop', 'del') for x in evs[:i])
                         notin = cond_false(evs, i, lambda a: ' in self.' in a) or cond_true(evs, i, lambda a: ' not in self.' in a)
-                        slot_empty = cond_false(evs, i, lambda a: a.startswith('self.' + e.a))
+                        slot_empty = cond_false(evs, i, lambda a: a.startswith('self.' + e.a)) or any(
+                            c.kind == 'COND' and c.b is False and fieldtag in ((c.x or {}).get('tags') or ()) for c in evs[:i])
                         fresh_key = mname == '_add_upstream'      # no parallel edges (C15's premise): key is new
                         if prior_pop or notin or slot_empty or fresh_key:
                             continue
@@ -259,10 +260,7 @@ def check_class(ctx, R, cls, rules=None):
                     awaited = any(x.kind == 'SUS' and has(x.b, emtag) for x in evs[j + 1:i])
                     guarded_empty = any(x.kind == 'COND' and x.b is False and x.x and
                                         emtag in _cond_tags(st, x) for x in evs[j + 1:i])
-                    if not awaited and not guarded_empty:
-                        # the emission result may have been given to a local that was tested falsy
-                        guarded_empty = any(x.kind == 'COND' and x.b is False and x.a in _names_with_tag(evs, j, i, emtag, st)
-                                            for x in evs[j + 1:i])
+
                     rep('REL-AFTER-AWAIT', e.a, awaited or guarded_empty,
                         'release of %s before the awaitable of the emission at line %d was awaited' % (e.a, evs[j].line),
                         e.line, evs)
@@ -329,7 +327,12 @@ def st_tags_of(st, node):
 def _cond_tags(st, cond_ev):
     """tags of the value whose *truthiness* was tested (bare name, or len(name)); other predicates
     (isawaitable(x), x is None ...) say nothing about the value being empty"""
-    node = (cond_ev.x or {}).get('node')
+    x = cond_ev.x or {}
+    if 'tags' in x:
+        # recorded when the test was evaluated (right environment even inside a spliced helper); only plain
+        # truthiness tests of a name / attribute / subscript / len(..) carry tags
+        return set(x['tags'])
+    node = x.get('node')
     out = set()
     if node is None:
         return out
@@ -446,7 +449,7 @@ def check_in_flight(ctx, R, cls):
         return
     # which fields have their content released by some method (REL of a value read in place)
     released_in_place = {}
-    for name, fn in cls.methods.items():
+    for name, fn in ctx.entry_methods(cls):
         if name == '__init__':
             continue
         for st, status in ctx.paths(fn, cls):
@@ -456,7 +459,7 @@ def check_in_flight(ctx, R, cls):
                         if t.startswith('field:') and t[6:] in mdf and not any(
                                 u.startswith('take:' + t[6:] + '@') for u in e.b):
                             released_in_place.setdefault(t[6:], set()).add(name)
-    for name, fn in cls.methods.items():
+    for name, fn in ctx.entry_methods(cls):
         if name == '__init__' or not fn.is_coro:
             continue
         con = ctx.construct(fn)
